@@ -112,6 +112,9 @@ class Check(PropertyCheck):
     module = "LLBuild.Props.C04All"
     theorems = ["LLBuild.BuildDB.C04_committed_inv", "LLBuild.BuildDB.C04_no_epoch_reuse", "LLBuild.BuildDB.C04_deps_closed",
                 "LLBuild.BuildDB.C04_set_preserves", "LLBuild.BuildDB.C04_crash_keeps_committed",
+                # follow-up: reads included, any number of connection slots interleaved
+                "LLBuild.BuildDB.C04_committed_inv_all", "LLBuild.BuildDB.C04_snap_inv_unconditional", "LLBuild.BuildDB.C04_slots_inv",
+                "LLBuild.BuildDB.C04_inv1_all", "LLBuild.BuildDB.C04_read_preserves_inv1", "LLBuild.BuildDB.C04_no_epoch_reuse_all",
                 # engine level (abstract engine with the `crash` event; Props/C04Engine.lean)
                 "LLBuild.Engine.C04_continue_clean", "LLBuild.Engine.C04_crash_rolls_back",
                 "LLBuild.Engine.C04_commit_only_at_build_complete", "LLBuild.Engine.C04_no_epoch_reuse_engine",
